@@ -374,6 +374,10 @@ func (e *Executor) runCommand(ctx context.Context, t *ast.Task, call *Call, i in
 	}
 }
 
+// errExecutionSucceeded is the cancellation cause of the context of a
+// deduplicated (run: once / when_changed) execution that ended without error.
+var errExecutionSucceeded = errors.New("task: execution succeeded")
+
 func (e *Executor) startExecution(ctx context.Context, t *ast.Task, execute func(ctx context.Context) error) error {
 	h, err := e.GetHash(t)
 	if err != nil {
@@ -395,16 +399,27 @@ func (e *Executor) startExecution(ctx context.Context, t *ast.Task, execute func
 		defer reacquire()
 
 		<-otherExecutionCtx.Done()
+		// The task ran only once: how that execution ended is our result too
+		if cause := context.Cause(otherExecutionCtx); cause != errExecutionSucceeded {
+			return cause
+		}
 		return nil
 	}
 
-	ctx, cancel := context.WithCancel(ctx)
-	defer cancel()
+	ctx, cancel := context.WithCancelCause(ctx)
 
 	e.executionHashes[h] = ctx
 	e.executionHashesMutex.Unlock()
 
-	return execute(ctx)
+	err = execute(ctx)
+	// Releasing the callers that wait for this execution also tells them how
+	// it ended
+	if err == nil {
+		cancel(errExecutionSucceeded)
+	} else {
+		cancel(err)
+	}
+	return err
 }
 
 // FindMatchingTasks returns a list of tasks that match the given call. A task
